@@ -49,9 +49,14 @@ impl AstCache {
 
             if path.is_file() && path.extension().is_some_and(|ext| ext == "rs") {
                 // Skip target directory and other build artifacts
-                if path.to_string_lossy().contains("/target/")
-                    || path.to_string_lossy().contains("/.git/")
-                {
+                // (only directories below the project path count, not the project path itself)
+                let below_root = path.strip_prefix(project_path).unwrap_or(path);
+                let in_excluded_dir = below_root.parent().is_some_and(|dir| {
+                    dir.components().any(|c| {
+                        matches!(c, std::path::Component::Normal(name) if name == "target" || name == ".git")
+                    })
+                });
+                if in_excluded_dir {
                     continue;
                 }
 
